@@ -90,7 +90,7 @@ def run_shard(ctx):
     # 2. exhaustive short sequences, sampled policies
     L = ctx.pick(2, 3)
     pairs = [(a, b) for a in A_OUT for b in B_OUT]
-    k_pol = ctx.pick(2, 3)
+    k_pol = ctx.pick(4, 6)
     for length in range(1, L + 1):
         for script in itertools.product(pairs, repeat=length):
             for max_iter in range(0, ctx.pick(3, 4) + 1):
@@ -205,7 +205,7 @@ def multi_period(ctx, Model):
     """solve(): 'skip' moves on to the next period; 'raise' stops there; earlier periods complete."""
     rng = ctx.rng('c06-multi')
     n = 6
-    count = ctx.pick(40, 400)
+    count = ctx.pick(150, 1500)
     for i in range(count):
         if not ctx.mine(i):
             continue
